@@ -259,7 +259,7 @@ func runRaceOne(seed uint64) (stats map[string]int, err error) {
 		ShutdownOnRemove: true, Bandwidth: 256 * 1024, LogSegmentSize: []int{1024, 2048, 4096}[rr.rng.Intn(3)], SnapshotsRetain: 1 + rr.rng.Intn(2)}
 	base := filepath.Join("/dev/shm", fmt.Sprintf("verif-race-%d", os.Getpid()), fmt.Sprintf("r%x", seed))
 	_ = os.RemoveAll(base)
-	defer os.RemoveAll(base)
+	defer func() { _ = os.RemoveAll(base); _ = os.Remove(filepath.Dir(base)) }()
 	nvoters := 2 + rr.rng.Intn(3)
 	total := nvoters + rr.rng.Intn(3)
 	conf := Config{Nodes: map[uint64]Node{}, Index: 1, Term: 1}
